@@ -21,7 +21,7 @@ PROPS = {
                 "array placeholders (half of the cases), recursive disclosures; even cases: all disclosures through Holder::verify, Verifier::verify, Holder::presentation+build, "
                 "the extracted model and the independent verifier (three-way agreement with the original claims); odd cases: Holder::presentation -> redact -> build -> "
                 "Verifier::verify, and the built presentation judged by the independent verifier. non-trivial = non-default algorithm, decoys, odd formatting or nested marking; "
-                "distinct = distinct (kind,input)",
+                "distinct = distinct (kind,input) Added: one sha-256 token in three leaves _sd_alg out (default sha-256); chains of 9-14 recursive disclosures; member names starting like reserved names.",
         "explanation": "",
         "trusted_base": ["premises hash_inj, dec_enc as in C03; RefVerify.v is the independent reference"],
         "assumptions": [],
@@ -32,7 +32,7 @@ PROPS = {
                 "payload plus disclosure values, no reserved claim name, and the independent top-down verifier (RefVerify.v) reconstructs the expected claims for every sub-list "
                 "of the disclosures (all 2^k for k<=6 quick / 8 thorough, 50 sampled above); (b) Disclosure::new(k,v).salt_len(0..64).algorithm(sha-256/384/512).build(): digest == "
                 "independent hash of the string, string decodes to [salt,k,v], salt length as requested, from_base64 round trip, reserved names refused. non-trivial = nested or "
-                "array-element markings and all build cases; distinct = distinct (kind,input)",
+                "array-element markings and all build cases; distinct = distinct (kind,input) Added: one case in eight issues with nothing disclosable; one in eight plants a reserved name (_sd, ..., top-level _sd_alg) in the claims (the issuer must refuse); bound cases in which the claims carry a cnf member of their own (refusal, or a conformant token).",
         "explanation": "",
         "trusted_base": ["RefVerify.v is the reference: a hand-written Gallina rendering of the specification's verification algorithm"],
         "assumptions": [],
@@ -41,7 +41,7 @@ PROPS = {
         "rule": "YAML documents emitted by the harness from random (claims, marking): block style with every fifth container in flow style, JSON-quoted keys and scalars (null, booleans, "
                 "integers, floats, empty / non-ASCII / quoted strings), !sd on mapping keys at any depth (also inside sequences, below tagged keys, in single-entry mappings) and on "
                 "string sequence items; parse_yaml vs the model run on the value tree serde_yaml builds from the same text; oracle: claims == C, set(paths) == M, no enclosing path "
-                "before a nested one; then Issuer(C).iter_disclosable(paths).encode + Holder::verify == C. non-trivial = a tag below depth 1 or below another tag; distinct = distinct (kind,input)",
+                "before a nested one; then Issuer(C).iter_disclosable(paths).encode + Holder::verify == C. non-trivial = a tag below depth 1 or below another tag; distinct = distinct (kind,input) Added: keys containing '/' and '~' (paths are RFC 6901 pointers); 112 documents with tags where the library does not support them (on a value, foreign tags, !sd on non-string items) with the oracle 'refuse, or return the claims of the document without its tags'.",
         "explanation": "",
         "trusted_base": ["YAML text -> value tree is serde_yaml (oracle): the model starts from the tree the harness obtains with serde_yaml::from_str on the same text"],
         "assumptions": [],
@@ -51,7 +51,7 @@ PROPS = {
                 "disclosable) and decoy maxima cycling 1..50, every second issuer object used for two encode() calls, 16 threads pooled into one set: salts >= 16 bytes, salts / "
                 "digests / decoys pairwise distinct, decoys never equal to real digests and of the same form, decoy count in [1,max], every kind of digest list (top-level, nested, "
                 "inside a disclosed value) observed >= 200 times and not constantly in marking order; (b) 1 500 / 20 000 random issuances with decoys replayed by the model issuer "
-                "from the read-back salts, insertion positions, decoys and shuffle. non-trivial = all; distinct = distinct (kind,input)",
+                "from the read-back salts, insertion positions, decoys and shuffle. non-trivial = all; distinct = distinct (kind,input) Added to the history: every fourth issuer object is a one-claim credential (top-level lists in which all real digests precede all decoys are counted); decoys that are the sha-256 image (of the text or of the decoded bytes) of another list entry, a disclosure or a salt are counted.",
         "explanation": "the history run is statistical support for the premises of the structure theorems (fresh draws, large decoy space, shuffled lists), not a proof of them",
         "trusted_base": [],
         "assumptions": ["that thread_rng draws are distinct, unpredictable and uniform is runtime behaviour outside the model"],
@@ -61,7 +61,7 @@ PROPS = {
                 "(quick) / all (thorough) positions of the three segments, (b) every (key, configured algorithm) pair of the 13x13 matrix, (c) the public key's PEM bytes used as "
                 "HMAC secret under every HMAC policy, (d) header rewritten to HS256 and re-signed with the public PEM as secret; each through decode, Holder::verify and "
                 "Verifier::verify. oracle: accepted iff untouched token, matching key, configured algorithm == signing algorithm. model run with the ideal signature oracle "
-                "(true exactly on the recorded signed token). non-trivial = any case other than the untouched token; distinct = distinct (kind,input)",
+                "(true exactly on the recorded signed token). non-trivial = any case other than the untouched token; distinct = distinct (kind,input) Added: byte-inexact SD-JWT strings around the untouched JWT (white space before/after); ECDSA signatures re-encoded as DER and mirrored (r, n-s) - known findings KF-2, KF-3; related HMAC keys (base64url/base64/hex text of the secret, +newline, -1 byte, reversed, upper-cased); HMAC secrets of 13 lengths around the block sizes signed by an independent RFC 2104 implementation and compared byte for byte with the library's signature.",
         "explanation": "",
         "trusted_base": ["ideal_sig premise of C04_only_exact: unforgeability is a computational assumption about RustCrypto, not proved",
                          "jwt_rustcrypto::decode is a modelled dependency (Jwt.v), validated by this correspondence run only"],
@@ -71,7 +71,7 @@ PROPS = {
         "rule": "all 2^9 subsets of the optional header fields (typ cty jku kid x5u x5c x5t x5t_s256 crit) x value classes (ASCII, empty, non-ASCII, quotes/backslashes, long; "
                 "lists of length 0/1/3) on HS256 (2 rounds quick / 30 thorough), plus sampled subsets on all 13 algorithms; Issuer::new(..).header(h).encode, then decode, "
                 "Holder::verify, Verifier::verify. oracle: returned header == {alg} + exactly the set fields under their member names; the model's build_header+serialisation "
-                "must print the header the token carries. non-trivial = at least one optional field set; distinct = distinct (kind,input)",
+                "must print the header the token carries. non-trivial = at least one optional field set; distinct = distinct (kind,input) Added: value classes drawn per field or per header; x5c entries that look like DER certificates (standard base64 'MII...'); lists with repeated entries ([s,s], [s,t,t,u], [s,t,s]); thumbprints of SHA-1 / SHA-256 length (27 / 43 characters, with and without padding) under both members.",
         "explanation": "",
         "trusted_base": ["serde serialisation of the JWT library's header type is an oracle (jheader_json mirrors its declared member names)"],
         "assumptions": ["the embedded-JWK header field is excluded (the JWT library re-types it), as in the property"],
@@ -82,7 +82,7 @@ PROPS = {
                 "observed policies; (ii) for 300 sampled (quick) / all (thorough) reachable policies (validate_nbf switched on in a third): one token satisfying every constraint and "
                 "tokens violating exactly one (exp past / within leeway / missing / string, nbf future / within leeway / missing, aud other / array / missing, iss, sub, required "
                 "claim missing, other algorithm), margins 30 s, through decode, Holder::verify and Verifier::verify. non-trivial = any builder transition or violating token; "
-                "distinct = distinct (kind,input)",
+                "distinct = distinct (kind,input) Added: the key-binding policy handed to Verifier::verify (algorithm, audience, cnf JWK with its own alg member) through the verify kind.",
         "exhaustive": True,
         "explanation": "the builder closure is enumerated completely (finite alphabet); enforcement is sampled in the quick tier",
         "trusted_base": ["jwt_rustcrypto::validate and decode are a modelled dependency (Jwt.v), validated by this correspondence run only"],
@@ -93,7 +93,7 @@ PROPS = {
                 "signed by another RSA key, other algorithm, typ missing / JWT-like, sd_hash over another string / the JWT only / the presentation without its final '~' / under "
                 "another hash algorithm / missing / non-string, aud unexpected / missing, no key-binding policy, disclosure dropped / added / duplicated / reordered / replaced "
                 "after binding, KB stripped, KB on an unbound token, cnf not RSA / e missing / n not a string / n not base64 / cnf null. KB validity table filled by an "
-                "independent RSA verification; oracle: Verifier::verify accepts iff no defect. non-trivial = defect case; distinct = distinct (kind,input)",
+                "independent RSA verification; oracle: Verifier::verify accepts iff no defect. non-trivial = defect case; distinct = distinct (kind,input) Added kinds: sd_hash prefix / empty / extended / case-flipped / padded / prefix with a dropped disclosure; cnf JWK with an alg member (differs from the policy: KB under the policy algorithm accepted, KB under the JWK's algorithm rejected); issue-kind cases with key binding and a path /cnf (must fail).",
         "explanation": "",
         "trusted_base": ["KB-JWT signature validity and policy evaluation inside jwt-rustcrypto enter the model as the o_kb oracle"],
         "assumptions": [],
@@ -103,7 +103,7 @@ PROPS = {
                 "and non-ASCII, 3 repeated build() calls per holder, verifier policies with matching / no / other audience. oracle per build: header == {alg, typ: kb+jwt}, aud as "
                 "supplied, iat within the call's [t0,t1], nonce 32 alphanumerics and pairwise distinct across the builds, sd_hash == independent sha2 hash (under the token's "
                 "_sd_alg) of the presentation up to and including its last '~', signature verified by an independent RSA check (rsa crate directly), same disclosures every build; "
-                "the verifier accepts iff the policy's algorithm and audience fit. all cases non-trivial; distinct = distinct (kind,input)",
+                "the verifier accepts iff the policy's algorithm and audience fit. all cases non-trivial; distinct = distinct (kind,input) Added: staged cases (build, redact on the same Holder, build, redact, build - every KB-JWT commits to its own presentation); claims named like KB-JWT claims (iat in the future / past / non-integer, nonce, aud, sd_hash, nbf); cnf JWKs with an alg member other than the supplied algorithm.",
         "explanation": "",
         "trusted_base": [],
         "assumptions": ["freshness/unpredictability of the nonce and the clock are properties of thread_rng and chrono: oracles of the model; the run only checks distinctness and the iat window"],
@@ -112,7 +112,7 @@ PROPS = {
         "rule": "as C02, but every marked node carries a unique sentinel (#k<i>#name for members, #v<i># for scalar values); unbound tokens from the library and the reference "
                 "issuer; random redaction sets incl. junk paths. oracle: (a) no sentinel occurs in the base64-decoded header/payload of the issuer JWT, (b) the built presentation "
                 "carries exactly the disclosures of marks that are neither redacted nor below a redacted mark (count and identity), (c) sentinels of withheld marks occur in no "
-                "decoded segment of the presentation. non-trivial = at least one marked path is redacted; distinct = distinct (kind,input)",
+                "decoded segment of the presentation. non-trivial = at least one marked path is redacted; distinct = distinct (kind,input) Added: redaction density varies; one case in ten issues 2-3 credentials from the same Issuer object (every one must hide its disclosable claims).",
         "explanation": "",
         "trusted_base": [],
         "assumptions": ["'no byte' is checked on the base64-decoded JSON text of every segment; that base64/JSON printing adds no other information is the encoding oracle"],
@@ -122,7 +122,7 @@ PROPS = {
                 "shuffled disclosures), every fifth bound to the RSA holder key; redaction sets = random subsets of the marked paths plus (1 in 3) non-disclosable, non-existent, "
                 "slash-less and sibling-prefix strings, in random order; Holder::presentation -> redact* -> key_binding? -> build -> Verifier::verify. model must reproduce the "
                 "presentation string; oracle: presentation carries exactly the disclosures not withheld, verifier claims == original minus withheld (Spec.prune). "
-                "non-trivial = non-empty redaction list; distinct = distinct (kind,input)",
+                "non-trivial = non-empty redaction list; distinct = distinct (kind,input) Added: redaction density varies per case (none / one / 1 in den); chains of 9-14 recursive disclosures; cnf JWKs decorated with alg/use/kid; claims carrying \"cnf\": null (unbound).",
         "explanation": "",
         "trusted_base": [],
         "assumptions": ["KB-JWT signature validity is an oracle of the model, filled by an independent RSA verification in the harness"],
@@ -132,7 +132,7 @@ PROPS = {
                 "Issuer object, expires_in_seconds on a quarter of the valid cases; every second case carries exactly one invalid path (unknown member, index out of range, "
                 "non-numeric / negative / overflowing index, member name into an array, path through a scalar, no leading slash, empty path, path inside an already listed "
                 "claim) at a random position of the list. oracle: valid => Ok and round trip (C01) for each call, invalid => Err, never a panic, exp in [t0+n,t1+n]. "
-                "non-trivial = invalid-path case, or several calls, or decoy maximum <= 0, or only nested markings; distinct = distinct (kind,input)",
+                "non-trivial = invalid-path case, or several calls, or decoy maximum <= 0, or only nested markings; distinct = distinct (kind,input) Added kinds: into_digest_list (/x then /_sd/0), repeat_array_element, repeat_member, into_placeholder, cnf_path_with_key_binding, own_cnf_with_key_binding, reserved_name (claims with _sd / ... / top-level _sd_alg); lifetimes requested again between encode() calls, claims that already carry exp, lifetimes up to i64::MAX (no panic, saturating).",
         "explanation": "",
         "trusted_base": [],
         "assumptions": ["the clock (chrono::Utc::now) and thread_rng are oracles: exp and the random draws are read back from the token"],
@@ -141,7 +141,7 @@ PROPS = {
         "rule": "random claims objects (depth 2-4, width<=3; empty, numeric-looking, non-ASCII, sibling-prefix keys; equal sibling values) with random non-empty markings "
                 "listed descendants first, decoy settings none/1/5, cnf in 1 of 6, HS256 (all 13 algorithms on a 2% subsample): Issuer::encode, read-back of salts, insertion "
                 "positions, decoys and shuffle from the token by independent decoding, model must reproduce the token exactly; then Holder::verify vs model; oracle: claims == "
-                "original (+cnf), paths == marked paths with names and values. non-trivial = some marked node is nested or an array element; distinct = distinct (kind,input)",
+                "original (+cnf), paths == marked paths with names and values. non-trivial = some marked node is nested or an array element; distinct = distinct (kind,input) Families added after the seeding rounds: member names containing '/', '~', starting like reserved names (_sdk, ...., ...x), nested _sd_alg members; every 40th case a chain of 9-14 recursive disclosures; bounded-exhaustive part first: every claims object with <= 3 (quick) / 4 (thorough) nodes and every non-empty marking of it.",
         "explanation": "",
         "trusted_base": [],
         "assumptions": [],
@@ -151,7 +151,7 @@ PROPS = {
                 "3-element disclosure in a placeholder; 2-element disclosure in _sd; non-string / _sd / ... name; name collision; the same digest in one _sd twice, in two _sd lists, "
                 "in two placeholders, in _sd and placeholder, with and without its disclosure presented; _sd a string/object/number; placeholder with an extra member; unknown / wrongly "
                 "cased / missing / non-string _sd_alg), planted in the claims before issuing so that it lands at any nesting level including inside disclosure values; all own "
-                "disclosures presented in random order; every fourth case also runs the twin without the defect, which must be accepted. non-trivial = defect case; distinct = distinct (kind,input)",
+                "disclosures presented in random order; every fourth case also runs the twin without the defect, which must be accepted. non-trivial = defect case; distinct = distinct (kind,input) A missing _sd_alg is no longer on the defect list (the specification prescribes the default sha-256: accept case of C08).",
         "explanation": "oracle: Holder::verify, Verifier::verify and Holder::presentation return Err on the defect token and Ok(original claims) on the twin",
         "trusted_base": [],
         "assumptions": ["issuer JWT signature checking is an oracle of the model (table of harness-signed HS256 tokens)"],
@@ -161,7 +161,7 @@ PROPS = {
                 "odd formatting), then adversarial disclosure lists: subsets, permutations, duplicates, disclosures of a second token, foreign/"
                 "reserved/non-string names, non-base64, non-JSON, wrong arity, bit substitutions, truncations, empty segments; every third case "
                 "is a duplicate-free ancestor-closed subset in random order that must be accepted. non-trivial = the list differs from the "
-                "issuer's own list; distinct = distinct (kind,input)",
+                "issuer's own list; distinct = distinct (kind,input) Added: bounded-exhaustive part first (every claims object with <= 3/4 nodes, every marking, every order of the disclosure list, every list with one disclosure left out); chains of 9-14 recursive disclosures; one sha-256 token in six without _sd_alg.",
         "explanation": "theorems over all annotated trees and all lists; correspondence: Holder::verify, Verifier::verify, Holder::presentation+build vs extracted model; "
                        "oracle: Err, or claims = original minus the marks whose disclosure is not presented (Spec.prune)",
         "trusted_base": ["premises of the theorems: hash_inj (the digest function is injective: idealised collision resistance), dec_enc (decoding an encoded disclosure returns its parts)"],
@@ -174,7 +174,7 @@ PROPS = {
                 "mutations of valid reference-issued tokens: every JSON type for _sd, _sd_alg, cnf and its kty/n/e, validly signed payloads of every JSON type, odd placeholders, "
                 "disclosures of any JSON type / arity, truncated base64, invalid UTF-8, segment deletion / duplication, bogus KB segments; 10^3 disclosures with a 2*10^4-entry _sd; "
                 "(iii) compounded nesting 100..20 000 levels run in a child process on a 2 MiB thread; (iv) exp/nbf at the edge of u64 through the JWT library; (v) 21 malformed / "
-                "mis-tagged / deeply nested YAML documents. non-trivial = input reaching beyond the first splitter; distinct = distinct (kind,input)",
+                "mis-tagged / deeply nested YAML documents. non-trivial = input reaching beyond the first splitter; distinct = distinct (kind,input) Added: family (ii') - every rejection and acceptance path with 300-byte strings of 2-, 3- and 4-byte characters at both parities (names, digests, algorithm names, cnf members, raw segments, the token string itself).",
         "exhaustive": True,
         "explanation": "the enumeration of strings over {a . ~} up to the stated length is complete; the other streams are sampled",
         "trusted_base": [],
